@@ -265,6 +265,31 @@ def run_dur_ops(ctx, mon):
     ctx.sample({"kind": "dur_binop", "op": "add", "a": pairs[0][0], "b": pairs[0][1]})
 
 
+def run_small_nanos(ctx, mon):
+    """The +-(less than a day) helpers that Instant/LocalInstant/OffsetDateTime use to apply an Offset: same int model, result normalised."""
+    from pyoda_time import Duration
+    rng = ctx.rng
+    if not hasattr(Duration, "_plus_small_nanoseconds"):
+        ctx.note("Duration._plus_small_nanoseconds/_minus_small_nanoseconds not present in this tree"); return
+    days = [0, 1, -1, 18262, -18262, 2, rng.randint(-10**6, 10**6), rng.randint(-10**4, 10**4)]
+    nods = [0, 1, NS_DAY - 1, NS_DAY // 2, 3600 * 10**9, NS_DAY - 3600 * 10**9, 18 * 3600 * 10**9, 6 * 3600 * 10**9] + [rng.randrange(NS_DAY) for _ in range(6)]
+    for dd in days:
+        for nod in nods:
+            a = dd * NS_DAY + nod; da = Duration.from_nanoseconds(a)
+            smalls = {0, 1, -1, nod, -nod, NS_DAY - nod, -(NS_DAY - nod), nod - NS_DAY, NS_DAY - 1, -(NS_DAY - 1), 18 * 3600 * 10**9, -18 * 3600 * 10**9,
+                      rng.randrange(-NS_DAY + 1, NS_DAY), rng.randrange(-64800, 64801) * 10**9}
+            for sm in smalls:
+                if not -NS_DAY < sm < NS_DAY: continue
+                for nm, exp in (("_plus_small_nanoseconds", a + sm), ("_minus_small_nanoseconds", a - sm)):
+                    case = {"kind": "dur_small", "a": a, "small": sm, "op": nm}
+                    ctx.count("dur_small_nanos"); ctx.key(("small", nm, (sm > 0) - (sm < 0), exp % NS_DAY == 0, (exp // NS_DAY) - dd))
+                    try:
+                        r = getattr(da, nm)(sm)
+                    except Exception as e:  # noqa: BLE001
+                        ctx.exc(e); ctx.V(f"C03:{nm}:raised", f"Duration({a}).{nm}({sm}) raised {e!r}", case, repr(e)); continue
+                    mon.check_duration(r, exp, case, nm)
+
+
 def run_dur_muldiv(ctx, mon):
     from pyoda_time import Duration
     rng = ctx.rng
@@ -456,6 +481,8 @@ def run(ctx, shard):
         ctx.distinct(ctx.counters.get("contract_evals", 0) - before)
         return
     PARTS[shard["part"]](ctx, mon)
+    if shard["part"] == "dur_ops":
+        run_small_nanos(ctx, mon)
     # contract evaluations happen in every shard that performs arithmetic; factory/muldiv shards may have none
     ctx.counters.setdefault("contract_evals", 0)
 
@@ -476,6 +503,8 @@ def replay(ctx, case):
             else:
                 mon.check_duration(r, want, case, f"from_{name}")
         _call(ctx, lambda: getattr(Duration, "from_" + name)(n), inr, case, f"from_{name}", ok)
+    elif k == "dur_small":
+        mon.check_duration(getattr(Duration.from_nanoseconds(case["a"]), case["op"])(case["small"]), case["a"] + (case["small"] if "plus" in case["op"] else -case["small"]), case, case["op"])
     elif k == "dur_value":
         mon.check_duration(Duration.from_nanoseconds(case["ns"]), case["ns"], case, "value")
     elif k in ("dur_binop", "dur_mul", "dur_rmul", "dur_div"):
